@@ -79,7 +79,10 @@ class C04(Prop):
     assumptions = ["the settling time of the PID algorithm is NOT proved (C04_pid_* are first-cycle / rest-point facts); its behaviour is sampled by stream closed"]
     partial_note = ("PID: settling is sampled, not proved. Direct+limit on a range other than 0..255 violates the property on the code that "
                     "exists (known finding C04-scale-mismatch, refuted in Lean by C04_limited_refuted)")
-    streams = [Stream("loop", gen_loop, parallel=8), Stream("closed", gen_closed, parallel=8)]
+    streams = [Stream("loop", gen_loop, parallel=8), Stream("closed", gen_closed, parallel=8),
+               # which algorithm the real initializeFanControllers wires for a configuration (absent = default PID,
+               # direct, direct+limit, pid, deprecated controlLoop block)
+               Stream("wiring", lambda r, tier: streams.gen_wiring(r, 300 if tier == "quick" else 6000), parallel=4)]
 
     def oracle(self, name, ops, go):
         out = []
